@@ -283,4 +283,69 @@ RefreshDkgShares(sec, r1, r2, opkp, okp) ==
               ELSE Ok([kp |-> [id |-> sec.id, share |-> share, vs |-> share, vk |-> opkp.vk, min |-> sec.min],
                        pkp |-> [vs |-> [i \in DOMAIN zp.vs |-> Add(zp.vs[i], opkp.vs[i])],
                                 vk |-> opkp.vk, min |-> sec.min]])
+
+-----------------------------------------------------------------------------
+(* keys/refresh.rs (trusted dealer) *)
+
+IdsOf(ids) == {ids[k] : k \in DOMAIN ids}
+
+RefreshShapeErr(pkp, ids) ==
+  IF pkp.min = -1 THEN "InvalidMinSigners"
+  ELSE IF ParamErr(Len(ids), pkp.min) # "none" THEN ParamErr(Len(ids), pkp.min)
+  ELSE IF \E k \in DOMAIN ids : ids[k] \notin DOMAIN pkp.vs THEN "UnknownIdentifier"
+  ELSE "none"
+
+RefreshDraws(pkp, ids) == IF RefreshShapeErr(pkp, ids) # "none" THEN 0 ELSE pkp.min - 1
+
+\* compute_refreshing_shares(pkp, ids, rng): zero-constant polynomial; the
+\* published commitment omits its (identity) first entry
+ComputeRefreshingShares(pkp, ids, coeffs) ==
+  IF RefreshShapeErr(pkp, ids) # "none" THEN Err(RefreshShapeErr(pkp, ids))
+  ELSE IF HasDup(ids) THEN Err("DuplicatedIdentifier")
+  ELSE LET poly == <<0>> \o coeffs
+           z == [i \in IdsOf(ids) |-> EvalPoly(poly, i)]
+       IN Ok([shares |-> z, order |-> ids, commit |-> coeffs,
+              pkp |-> [vs |-> [i \in IdsOf(ids) |-> Add(pkp.vs[i], z[i])], vk |-> pkp.vk, min |-> pkp.min]])
+
+\* refresh_share(refreshing_share, current_key_package).
+\* INTENDED behaviour (C10): the returned package's verifying share is the
+\* generator times the *new* signing share.
+RefreshShare(ss, kp) ==
+  LET full == [ss EXCEPT !.commit = <<0>> \o @]
+      r == KpFromSs(full)
+  IN IF ~r.ok THEN r
+     ELSE IF r.min # kp.min THEN Err("InvalidMinSigners")
+     ELSE LET ns == Add(r.share, kp.share)
+          IN Ok([id |-> kp.id, share |-> ns, vs |-> ns, vk |-> kp.vk, min |-> kp.min])
+
+-----------------------------------------------------------------------------
+(* keys/repairable.rs *)
+
+\* repair_share_part1(helpers (sequence), key_package_i, rng, participant)
+RepairShapeErr(helpers, kp) ==
+  IF Len(helpers) < kp.min THEN "IncorrectNumberOfIdentifiers"
+  ELSE IF kp.id \notin IdsOf(helpers) THEN "UnknownIdentifier"
+  ELSE IF HasDup(helpers) THEN "DuplicatedIdentifier"
+  ELSE "none"
+
+RepairDraws(helpers, kp) == IF RepairShapeErr(helpers, kp) # "none" THEN 0 ELSE Len(helpers) - 1
+
+\* the |H|-1 draws go to the helpers in ascending order; the largest helper
+\* gets zeta_i * share_i minus their sum
+RepairPart1(helpers, kp, draws, x) ==
+  IF RepairShapeErr(helpers, kp) # "none" THEN Err(RepairShapeErr(helpers, kp))
+  ELSE LET H == IdsOf(helpers)
+           hs == Sorted(H)
+           zeta == Lagrange(H, x, kp.id)
+           \* the participant being repaired may itself be in the helper set
+           \* only by mistake; then a denominator vanishes (cannot happen: x # i)
+       IN Ok([deltas |-> [h \in H |->
+                 IF h = hs[Len(hs)] THEN Sub(Mul(zeta, kp.share), SumSeq(draws))
+                 ELSE draws[CHOOSE k \in 1..Len(hs) : hs[k] = h]]])
+
+RepairPart2(deltas) == Ok([sigma |-> SumSeq(deltas)])
+
+RepairPart3(sigmas, id, pkp) ==
+  IF pkp.min = -1 THEN Err("InvalidMinSigners")
+  ELSE LET s == SumSeq(sigmas) IN Ok([id |-> id, share |-> s, vs |-> s, vk |-> pkp.vk, min |-> pkp.min])
 =============================================================================
